@@ -12,13 +12,17 @@
   (`C08_pos/neg/centre`), an axis that leaves key emulation is released (`C08_release_axis`), and the
   disconnect clean-up empties both trackers (`C01_cleanup_trackers`, any state).
 
-  Not covered by a theorem (covered by the differential run only): histories that mix key events and
-  axis events in one induction (the simulation theorem is for histories without axis events; the axis
-  theorems are per event from an arbitrary state, which is stronger locally but is not lifted to the
-  receiver's state over a mixed history).
+  Mixed histories — key events, axis events of every type (controllers, pitch bend, key emulation, action
+  emulation), SYN, MIDI input, in any order: `C01_mixed_explained`, `C01_mixed_quiescent`,
+  `C01_mixed_disconnect` (invariant `Mixed.MInv`, by induction over the history).  The only hypothesis on
+  the history is `OKHistory`: key values 0/1/2 and a key is pressed only while the key tracker does not
+  hold it (keys alternate).  Whatever sounds is recorded for a held key or a deflected key-emulating
+  axis; with no key held and no emulated key tracked nothing sounds; after the disconnect clean-up nothing
+  sounds.  When an axis stops tracking is C08 (`C01_axis_rest`).
 -/
 import HidiProofs.KeyHistories
 import HidiProofs.Props.C08
+import HidiProofs.Mixed
 namespace Hidi.Props.C01
 open Hidi Hidi.Spec Hidi.EngineSim Hidi.KeyHist
 
@@ -91,6 +95,47 @@ theorem C01_axis_rest (d : Dev) (a : Analog) (code : Code) (canNeg : Bool) (v0 :
   let r := C08.C08_centre d a code canNeg v0 h (C08.centre_not_neg canNeg v0 h)
   ⟨r.1, r.2.1⟩
 
+/-! ### mixed histories: keys and axes of every type -/
+
+open Hidi.Mixed in
+/-- **whatever sounds is tracked**: after any admissible history of key, axis, SYN and MIDI-input events, every
+    (channel, note) a receiver hears is the pair recorded for a held key or for a deflected key-emulating axis -/
+theorem C01_mixed_explained (cfg : Config) (evs : List Ev) (hacc : Accepted cfg = true)
+    (hok : OKHistory (Dev.init cfg) evs) :
+    ∀ p ∈ sounding [] ((Dev.init cfg).runFlat evs).2, Tracked ((Dev.init cfg).runFlat evs).1 p :=
+  (run_minv hacc evs _ _ (init_minv hacc) hok).snd
+
+open Hidi.Mixed in
+/-- **no stuck notes, mixed histories**: when no key is down (the key tracker is empty) and no emulated key is
+    tracked (every key-emulating axis is back inside its rest zone, `C01_axis_rest`), nothing sounds -/
+theorem C01_mixed_quiescent (cfg : Config) (evs : List Ev) (hacc : Accepted cfg = true)
+    (hok : OKHistory (Dev.init cfg) evs)
+    (hkeys : ((Dev.init cfg).runFlat evs).1.keyTr = []) (haxes : ((Dev.init cfg).runFlat evs).1.anaTr = []) :
+    sounding [] ((Dev.init cfg).runFlat evs).2 = [] := by
+  have hinv := run_minv hacc evs _ _ (init_minv hacc) hok
+  apply List.eq_nil_iff_forall_not_mem.mpr
+  intro p hp
+  rcases hinv.snd p hp with ⟨k, hk⟩ | ⟨i, hi⟩
+  · have := hinv.keys k (List.mem_map_of_mem (f := Prod.fst) hk)
+    rw [hkeys] at this; cases this
+  · rw [haxes] at hi; cases hi
+
+open Hidi.Mixed in
+/-- **disconnect, mixed histories**: whatever is held or deflected, after the clean-up both trackers are empty and
+    nothing sounds -/
+theorem C01_mixed_disconnect (cfg : Config) (evs : List Ev) (hacc : Accepted cfg = true)
+    (hok : OKHistory (Dev.init cfg) evs) (hdead : ((Dev.init cfg).runFlat evs).1.dead = false) :
+    sounding (sounding [] ((Dev.init cfg).runFlat evs).2) ((Dev.init cfg).runFlat evs).1.cleanup.2 = [] ∧
+    ((Dev.init cfg).runFlat evs).1.cleanup.1.noteTr = [] ∧ ((Dev.init cfg).runFlat evs).1.cleanup.1.anaTr = [] :=
+  cleanup_silent (run_minv hacc evs _ _ (init_minv hacc) hok) hdead
+
+open Hidi.Mixed in
+/-- the counter is the number of holders after every admissible mixed history, too (C03's refinement fact) -/
+theorem C01_mixed_counter (cfg : Config) (evs : List Ev) (hacc : Accepted cfg = true)
+    (hok : OKHistory (Dev.init cfg) evs) (ch n : Nat) :
+    ((Dev.init cfg).runFlat evs).1.count ch n = (holders ((Dev.init cfg).runFlat evs).1.noteTr (n, ch) : Int) :=
+  (run_minv hacc evs _ _ (init_minv hacc) hok).cnt ch n
+
 /-! ### non-vacuity: a concrete history with a collision, a state change while held and a release in the
     other order satisfies every hypothesis, and notes did sound in between -/
 
@@ -108,5 +153,20 @@ example : Disciplined exCfg exEvs := by unfold Disciplined; decide
 example : keysDown exEvs [] = [] := by decide
 example : heard exCfg (exEvs.take 4) = [(0, 60)] := by decide
 example : heard exCfg exEvs = [] := by decide
+
+/-- axis, SYN and MIDI-input events are always admissible: the discipline only concerns key presses -/
+theorem okHistory_abs (d : Dev) (s n : String) (c : Code) (v : Int) (r : List Ev) :
+    Mixed.OKHistory d (.abs s n c v :: r) ↔ Mixed.OKHistory (d.step (.abs s n c v)).1 r := by
+  simp [Mixed.OKHistory, Mixed.EvOK]
+
+/-- a history with a key held across a transposition, MIDI input and SYN in between, satisfies the hypothesis -/
+def mixEvs : List Ev :=
+  [.key "" 30 1, .midiIn 0x90 60 64, .key "" 59 1, .syn, .key "" 59 0, .key "" 31 1, .key "" 30 0, .key "" 31 0]
+
+example : Mixed.OKHistory (Dev.init exCfg) mixEvs := by
+  simp only [mixEvs, Mixed.OKHistory, Mixed.EvOK]
+  decide
+example : sounding [] ((Dev.init exCfg).runFlat mixEvs).2 = [] := by decide
+example : sounding [] ((Dev.init exCfg).runFlat (mixEvs.take 6)).2 ≠ [] := by decide
 
 end Hidi.Props.C01
